@@ -17,8 +17,8 @@ from .. import wire
 from ..model import AnalysisError, CArray, CScalar, CStructRef, Unknown, dotted, src
 from . import c01
 
-TECHNIQUE = "sink enumeration from the ctypes layout model + dominating range-guard analysis with constant-evaluated bounds (static analysis)"
-ENGINES = ["model", "wire", "instrs"]
+TECHNIQUE = "every instruction class's executed serialize refuses the first value outside each field's width (checker's AST interpreter over a ctypes layout model; bounds from the layout); who-constructs rule for the structures (static analysis; abstract execution)"
+ENGINES = ["model", "wire", "instrs", "cmodel", "codec"]
 EXPLANATION = (
     "Sinks = every integer that flows into a narrow ctypes field when a subroutine is encoded: immediates/integers passed by "
     "each shape's serialize() into its *Command struct, Register.index (4-bit field), Register.name (2-bit field, enum domain), "
